@@ -1592,6 +1592,8 @@ void Interpreter::handle_import_statement(const ASTNode *node) {
                             stmt->type_info == TYPE_DOUBLE ||
                             stmt->type_info == TYPE_QUAD) {
                             var.float_value = typed_val.double_value;
+                            var.double_value = typed_val.double_value;
+                            var.quad_value = typed_val.quad_value;
                         } else if (stmt->type_info == TYPE_STRING) {
                             var.str_value = typed_val.string_value;
                         }
@@ -1614,6 +1616,8 @@ void Interpreter::handle_import_statement(const ASTNode *node) {
                             stmt->type_info == TYPE_DOUBLE ||
                             stmt->type_info == TYPE_QUAD) {
                             var.float_value = typed_val.double_value;
+                            var.double_value = typed_val.double_value;
+                            var.quad_value = typed_val.quad_value;
                         } else if (stmt->type_info == TYPE_STRING) {
                             var.str_value = typed_val.string_value;
                         }
